@@ -75,10 +75,11 @@ PWild        == [k |-> "pwild"]
 ErrT         == [k |-> "err"]
 
 \* leaves: an identifier, an int literal, the INT_MIN literal (one token, see lexer.rs), a string
-AllAtomNames == {"a", "1", "intmin", "str"}
+AllAtomNames == {"a", "1", "intmin", "str", "fld"}
 IntMinTok == "-2147483648"
 AtomOf(n) == CASE n = "a" -> Id("a") [] n = "1" -> IntLit("1") [] n = "intmin" -> IntLit(IntMinTok)
                [] n = "str" -> Str("s")
+               [] n = "fld" -> [k |-> "field", e |-> Id("a"), n |-> "foo", targs |-> <<>>]   \* a.foo as a leaf
 A == Id("a")    \* the filler of the slots that are not the hole
 
 \* non-operator forms in operand position, and operands inside non-operator forms
